@@ -2,10 +2,19 @@
 C18 (call chain part) — the frames on the call stack when an error comes out are the active call sites plus the
 calls that failed: whatever the evaluator does, on every outcome, frames are only ever added above the stack it
 started from; the frames of the call sites below are literally untouched (their recorded lines included), and the
-frame that was on top keeps its module, kind and receiver (only its `line` / `ret` are updated in place).
+frame that was on top keeps its module, kind and receiver (only its `line` / `started` / `ret` are updated in place).
 By the fuel induction `allBal` (Proofs/StackBal*.lean).
+
+Second part — WHO writes the line marker: expressions, calls, constructors and declarations leave every frame they
+start from literally alone (`allLit`, Proofs/LineKeep.lean); hence an error in the condition of a 每当 loop — on any
+pass — finds the loop's line in the frame that runs the loop, and an error in a hoisted declaration finds the
+declaration's line; a frame in which a statement has begun stays started (`allKept`, Proofs/StartedKeep.lean); a call
+that fails before its first statement leaves a frame that never started.
 -/
 import ZnVerif.Proofs.StackBalBlock
+import ZnVerif.Proofs.StartedKeep
+import ZnVerif.Proofs.DeclLine
+import ZnVerif.Properties.C08
 import ZnVerif.Proofs.Toy
 set_option linter.unusedSectionVars false
 set_option linter.unusedSimpArgs false
@@ -13,6 +22,7 @@ set_option linter.unusedVariables false
 
 namespace ZnVerif.Properties.C18Chain
 open ZnVerif.Model ZnVerif.Proofs.Calls ZnVerif.Proofs.StackBal
+open ZnVerif.Proofs
 
 variable {ν : Type} [NumOps ν]
 
@@ -83,6 +93,156 @@ theorem failed_call_keeps_its_frame (n : Nat) (fname : String) (params : List Ad
     (congrArg Frame.callType hc : (core _).callType = (core _).callType),
     (congrArg Frame.this hc : (core _).this = (core _).this)⟩
 
+/-! ## who writes the line marker -/
+
+/-- `expression_leaves_frames_untouched`.  Whatever an expression, a call, a method call or a constructor does, and
+however it ends (value, error, panic, out of fuel): the call stack afterwards is the stack it started from — every frame
+literally as it was, `line`, `started` and return slot of the top frame included — with the frames of the calls that
+failed on top.  (The line marker is written by statements only.) -/
+theorem expression_leaves_frames_untouched (n : Nat) (s : VM ν) :
+    (∀ e, ∃ extra, (evalExpr n e s).2.stack = extra ++ s.stack) ∧
+    (∀ f ps, ∃ extra, (execDirectFunction n f ps s).2.stack = extra ++ s.stack) ∧
+    (∀ r f ps, ∃ extra, (execMethodFunction n r f ps s).2.stack = extra ++ s.stack) ∧
+    (∀ c ps, ∃ extra, (construct n c ps s).2.stack = extra ++ s.stack) := by
+  have h := LineKeep.allLit (ν := ν) n
+  exact ⟨fun e => (h.evalExpr e).ext s, fun f ps => (h.execDirectFunction f ps).ext s,
+    fun r f ps => (h.execMethodFunction r f ps).ext s, fun c ps => (h.construct c ps).ext s⟩
+
+/-- `while_condition_error_at_loop_line`.  每当: after k complete passes (any k), if evaluating the condition once more
+raises an error, that error is the outcome of the 每当 statement, and the frame that runs the loop — `f`, the top frame
+when the passes were over, with `r` below it — carries the line of the 每当 statement (and is started); above it are
+only the frames of calls that failed inside the condition.  So the error is reported at the loop's line, not at the
+line of the last statement of the previous pass. -/
+theorem while_condition_error_at_loop_line (n ln k : Nat) (c : Expr) (body : Option (List Stmt))
+    (s s1 s2 : VM ν) (e : Err) (f : Frame) (r : List Frame)
+    (hp : ControlFlow.WhilePasses n ln c body k (ControlFlow.setLine ln s) s1) (hk : k < n)
+    (hst : s1.stack = f :: r)
+    (hc : evalExpr n c (ControlFlow.setLine ln s1) = (.err e, s2)) :
+    evalStmt (n+1) (.while ln c body) s = (.err e, s2) ∧
+    ∃ extra, s2.stack = extra ++ { f with line := ln, started := true } :: r := by
+  constructor
+  · refine ControlFlow.while_fails_after hp hk ?_
+    unfold ControlFlow.whileStep
+    rw [ControlFlow.bind_err hc]
+  · obtain ⟨extra, he⟩ := ((LineKeep.allLit (ν := ν) n).evalExpr c).ext (ControlFlow.setLine ln s1)
+    rw [hc, ControlFlow.setLine_cons ln s1 f r hst] at he
+    exact ⟨extra, he⟩
+
+/-- `declaration_error_at_declaration_line`.  The hoisting pass of a block (type, method and constructor declarations
+run before the other statements): if the declarations `pre` ran normally and the declaration `d` raises an error — a
+failing property default, a name declared twice, a constructor for something that is not a program's own type — that
+error is the outcome of the block, and the frame that runs the block carries the line of `d` (and is started); above
+it are only frames of calls that failed inside the declaration. -/
+theorem declaration_error_at_declaration_line (n : Nat) (pre post : List Stmt) (d : Stmt) (s s1 s2 : VM ν) (e : Err)
+    (f : Frame) (r : List Frame)
+    (hd : isDecl d = true) (hpre : ControlFlow.hoistDecls n pre s = (.ok (), s1)) (hst : s1.stack = f :: r)
+    (hfail : DeclLine.evalDecl n d (ControlFlow.setLine d.line s1) = (.err e, s2)) :
+    evalStmtBlock (n+1) (some (pre ++ d :: post)) s = (.err e, s2) ∧
+    ∃ extra, s2.stack = extra ++ { f with line := d.line, started := true } :: r := by
+  refine ⟨DeclLine.evalStmtBlock_decl_fails hd hpre hfail, ?_⟩
+  obtain ⟨extra, he⟩ := (DeclLine.lit_evalDecl (ν := ν) n d).ext (ControlFlow.setLine d.line s1)
+  rw [hfail, ControlFlow.setLine_cons d.line s1 f r hst] at he
+  exact ⟨extra, he⟩
+
+/-- `started_frame_stays_started`.  A frame in which a statement has begun (position `i` from the bottom of the call
+stack) is still on the stack, and still marked started, after any statement or block — whatever the outcome. -/
+theorem started_frame_stays_started (n : Nat) (s : VM ν) (i : Nat) (h : LineKeep.StartedAt s.stack i) :
+    (∀ st, LineKeep.StartedAt (evalStmt n st s).2.stack i) ∧
+    (∀ b, LineKeep.StartedAt (evalPureStmtBlock n b s).2.stack i) ∧
+    (∀ b, LineKeep.StartedAt (evalStmtBlock n b s).2.stack i) := by
+  have k := LineKeep.allKept (ν := ν) n
+  exact ⟨fun st => (k.evalStmt st).keep s i h, fun b => (k.evalPureStmtBlock b).keep s i h,
+    fun b => (k.evalStmtBlock b).keep s i h⟩
+
+/-- every frame whose statement ran is started: after a statement — whatever its outcome — the frame `f` it ran in is
+still there (module, kind and receiver unchanged, the call sites `r` below it untouched) and is marked started -/
+theorem statement_marks_frame_started (n : Nat) (st : Stmt) (s : VM ν) (f : Frame) (r : List Frame)
+    (hs : s.stack = f :: r) :
+    ∃ extra f', (evalStmt (n+1) st s).2.stack = extra ++ f' :: r ∧ f'.started = true ∧
+      f'.moduleId = f.moduleId ∧ f'.callType = f.callType ∧ f'.this = f.this := by
+  obtain ⟨extra, f', h1, h2, h3, h4⟩ := call_sites_untouched (n+1) st s f r hs
+  refine ⟨extra, f', h1, ?_, h2, h3, h4⟩
+  -- the statement's first action marks the frame; the rest of it keeps the mark
+  have hk : LineKeep.StartedAt (evalStmt (n+1) st s).2.stack r.length := by
+    have hall := (LineKeep.allKept (ν := ν) (n+1)).evalStmt st
+    -- `evalStmt (n+1) st = setTopFrame … >>= K`; `K` alone need not be named: use the whole statement from the marked state
+    have hmark : (evalStmt (n+1) st s) = (evalStmt (n+1) st (ControlFlow.setLine st.line s)) := by
+      simp only [evalStmt]
+      rw [ControlFlow.setLine_bind, ControlFlow.setLine_bind, ControlFlow.setLine_idem]
+    rw [hmark]
+    refine hall.keep _ _ ?_
+    rw [ControlFlow.setLine_cons st.line s f r hs]
+    exact (LineKeep.startedAt_top _ r).2 rfl
+  rw [h1] at hk
+  obtain ⟨x, hx, hxs⟩ := hk
+  rw [List.reverse_append, List.reverse_cons, List.append_assoc,
+    List.getElem?_append_right (by simp), ] at hx
+  simp at hx
+  rw [hx]; exact hxs
+
+/-- a call with the wrong number of arguments: the error comes out of the call with exactly one frame added to the
+caller's stack — the callee's, which never started (`started = false`: no statement of the callee has begun), so by
+`C18.unstarted_frame_not_listed` the error printer does not list it when the callee's module has source text -/
+theorem arity_error_frame_unstarted (n : Nat) (fname : String) (params : List Addr) (s : VM ν) (fv : Addr) (mid : Int)
+    (inputs : List Ident) (body : Option (List Stmt)) (catches : List (Option Ident × Option (List Stmt)))
+    (hfind : findElementWithModule fname s = (.ok (fv, mid), s))
+    (hcell : s.heap[fv]? = some (.fn (.user (some (.mk inputs body catches)))))
+    (h : params.length ≠ inputs.length) :
+    ∃ e s2, execDirectFunction (n+3) fname params s = (.err e, s2) ∧
+      s2.stack = { moduleId := mid, callType := 2 } :: s.stack ∧
+      (s2.stack.head?.map (·.started)) = some false := by
+  have hp : pushFrame { moduleId := mid, callType := 2 } s =
+      (.ok (), (pushFrame { moduleId := mid, callType := 2 } s).2) := by unfold pushFrame modifyVM; rfl
+  have hrun := pushFrame_run (ν := ν) { moduleId := mid, callType := 2 } s
+  have hg : getCell fv (pushFrame { moduleId := mid, callType := 2 } s).2 =
+      (.ok (.fn (.user (some (.mk inputs body catches)))), (pushFrame { moduleId := mid, callType := 2 } s).2) := by
+    unfold getCell; rw [hrun.2.2.2.1, hcell]
+  obtain ⟨a1, a2, a3, a4, a5, a6⟩ := C08.arity_mismatch_runs_nothing n inputs body catches params
+    (pushFrame { moduleId := mid, callType := 2 } s).2 h
+  rcases hb : evalExecBlock (n+1) (some (.mk inputs body catches)) params
+    (pushFrame { moduleId := mid, callType := 2 } s).2 with ⟨rb, sb⟩
+  rw [hb] at a1 a4
+  simp only at a1 a4
+  subst a1
+  refine ⟨.excErr sb.heap.size, { sb with heap := sb.heap.push (.exc ("‹rt:" ++ toString 51 ++ "›")) }, ?_, ?_, ?_⟩
+  · simp only [execDirectFunction]
+    rw [bind_ok hfind]
+    simp only
+    rw [bind_ok hp, bind_ok hg]
+    simp only
+    have hf : execFunction (n+2) (.user (some (.mk inputs body catches))) none params
+        (pushFrame { moduleId := mid, callType := 2 } s).2 =
+        (.err (.excErr sb.heap.size), { sb with heap := sb.heap.push (.exc ("‹rt:" ++ toString 51 ++ "›")) }) := by
+      simp only [execFunction]
+      unfold Model.tryCatch
+      rw [hb]
+      rfl
+    rw [bind_err hf]
+  · show sb.stack = _
+    rw [a4, hrun.2.1]
+  · show (sb.stack.head?.map (·.started)) = some false
+    rw [a4, hrun.2.1]; rfl
+
+/-- a call of a name that does not hold a method (`（数甲：1）`): error 81 with exactly one frame added, which never
+started -/
+theorem not_a_method_frame_unstarted (n : Nat) (fname : String) (params : List Addr) (s : VM ν) (fv : Addr) (mid : Int)
+    (c : Cell ν) (hfind : findElementWithModule fname s = (.ok (fv, mid), s)) (hcell : s.heap[fv]? = some c)
+    (hnf : ∀ f, c ≠ .fn f) :
+    ∃ s2, execDirectFunction (n+1) fname params s = (.err (.rt 81), s2) ∧
+      s2.stack = { moduleId := mid, callType := 2 } :: s.stack := by
+  have hp : pushFrame { moduleId := mid, callType := 2 } s =
+      (.ok (), (pushFrame { moduleId := mid, callType := 2 } s).2) := by unfold pushFrame modifyVM; rfl
+  have hrun := pushFrame_run (ν := ν) { moduleId := mid, callType := 2 } s
+  have hg : getCell fv (pushFrame { moduleId := mid, callType := 2 } s).2 =
+      (.ok c, (pushFrame { moduleId := mid, callType := 2 } s).2) := by
+    unfold getCell; rw [hrun.2.2.2.1, hcell]
+  refine ⟨(pushFrame { moduleId := mid, callType := 2 } s).2, ?_, hrun.2.1⟩
+  simp only [execDirectFunction]
+  rw [bind_ok hfind]
+  simp only
+  rw [bind_ok hp, bind_ok hg]
+  cases c <;> first | rfl | (rename_i f; exact absurd rfl (hnf f))
+
 /-! ## non-vacuity -/
 
 section examples
@@ -104,6 +264,60 @@ example : ∃ extra f', (evalStmt 8 (.expr (.call 3 (some ⟨3, "g"⟩) [] none)
 example : 1 ≤ (evalStmt 8 (.expr (.call 3 (some ⟨3, "g"⟩) [] none)) sG).2.stack.length :=
   depth_never_drops 8 _ sG
 
+/-- calling `f` (no inputs) with one argument: error, and the only frame added never started -/
+example : ∃ e s2, execDirectFunction 3 "f" [0] sF = (.err e, s2) ∧
+    s2.stack = { moduleId := 0, callType := 2 } :: sF.stack ∧ (s2.stack.head?.map (·.started)) = some false :=
+  arity_error_frame_unstarted 0 "f" [0] sF 0 0 [] _ [] rfl rfl (by decide)
+
+/-- … so the error printer lists the caller's frame only -/
+example : listedFrames (execDirectFunction 3 "f" [0] sF).2 = [{ moduleId := 0, callType := 1 }] := by
+  rfl
+
+/-- calling 点, which holds a type, not a method -/
+example : ∃ s2, execDirectFunction 1 "点" [] sO = (.err (.rt 81), s2) ∧
+    s2.stack = { moduleId := 0, callType := 2 } :: sO.stack :=
+  not_a_method_frame_unstarted 0 "点" [] sO 0 0 _ rfl rfl (by intro f h; cases h)
+
+/-- `（g）` as a statement fails inside `g`: the script frame it ran in is still there and is started -/
+example : ∃ extra f', (evalStmt 8 (.expr (.call 3 (some ⟨3, "g"⟩) [] none)) sG).2.stack = extra ++ f' :: [] ∧
+    f'.started = true := by
+  obtain ⟨extra, f', h1, h2, _⟩ := statement_marks_frame_started 7 (.expr (.call 3 (some ⟨3, "g"⟩) [] none)) sG
+    { moduleId := 0, callType := 1 } [] rfl
+  exact ⟨extra, f', h1, h2⟩
+
+example : LineKeep.StartedAt
+    (evalStmt 8 (.expr (.call 3 (some ⟨3, "g"⟩) [] none))
+      { sG with stack := [{ moduleId := 0, callType := 1, started := true }] }).2.stack 0 :=
+  (started_frame_stays_started 8 { sG with stack := [{ moduleId := 0, callType := 1, started := true }] } 0
+    ⟨_, rfl, rfl⟩).1 _
+
+example : ∃ extra, (evalExpr 7 (.call 3 (some ⟨3, "g"⟩) [] none) sG).2.stack = extra ++ sG.stack :=
+  (expression_leaves_frames_untouched 7 sG).1 _
+
 end examples
+
+section line_examples
+open ZnVerif.Proofs.ControlFlow ZnVerif.Proofs.ControlFlow.Toy ZnVerif.Proofs.DeclLine.Toy
+
+/-- `每当 d <= d： d = t` on line 5, `d` = 0, `t` = "x": one complete pass, then the condition compares a text — error 83;
+the script frame carries line 5 although the last statement executed (`d = t`) is on line 0 -/
+example : ∃ s2 extra, evalStmt 7 (.while 5 condW (some [setD])) vmW = (.err (.rt 83), s2) ∧
+    s2.stack = extra ++ [{ moduleId := 0, callType := 1, line := 5, started := true }] := by
+  obtain ⟨h1, extra, h2⟩ := while_condition_error_at_loop_line 6 5 1 condW (some [setD]) vmW _ _ (.rt 83)
+    { moduleId := 0, callType := 1, line := 0, started := true } []
+    (.succ (run_ok (evalExpr 6 condW) _ K) (cell_bool _ true K) (run_ok (evalPureStmtBlock 6 _) _ K) K (.zero _))
+    (by decide) K (run_err (evalExpr 6 condW) _ _ K)
+  exact ⟨_, extra, h1, h2⟩
+
+/-- a block `（空）； 定义 C： 其 p 为 d / d； ‹nil›`: the declaration on line 3 fails (0 / 0) before any statement of the
+block runs; the frame carries line 3 -/
+example : ∃ s2 extra, evalStmtBlock 7 (some ([.empty 1] ++ clsBad :: [.nil])) vmW = (.err (.rt 90), s2) ∧
+    s2.stack = extra ++ [{ moduleId := 0, callType := 1, line := 3, started := true }] := by
+  obtain ⟨h1, extra, h2⟩ := declaration_error_at_declaration_line 6 [.empty 1] [.nil] clsBad vmW _ _ (.rt 90)
+    { moduleId := 0, callType := 1 } [] rfl (run_ok (hoistDecls 6 _) _ K) K
+    (run_err (DeclLine.evalDecl 6 clsBad) _ _ K)
+  exact ⟨_, extra, h1, h2⟩
+
+end line_examples
 
 end ZnVerif.Properties.C18Chain
